@@ -26,7 +26,7 @@ class Config(object):
 
     def __init__(self, seed=0, origin=(0.0, 0.0, 0.0), dx0=(0.125, 0.25, 0.5),
                  payload="tame", trailing_blank=True, long_ratio=False,
-                 file_gaps=False, time=None, numfmt="repr"):
+                 file_gaps=False, time=None, numfmt="repr", final_newline=True):
         self.seed = seed
         self.origin = tuple(origin)
         self.dx0 = tuple(dx0)
@@ -39,6 +39,9 @@ class Config(object):
         # "g6" = six significant digits, as written by codes that do not raise the stream precision.  The geometry helpers
         # below (level_dx, geo, box_bounds) return the values THE HEADER STATES, so oracles follow the text
         self.numfmt = numfmt
+        # FALSE: the level headers and the global header end with their last character, not with a line end (legal: nothing
+        # follows the last row)
+        self.final_newline = final_newline
 
     def fmt(self, x):
         return repr(float(x)) if self.numfmt == "repr" else "%.6g" % float(x)
@@ -72,7 +75,13 @@ class Config(object):
         return Config(seed=rng.randrange(1 << 30), origin=origin, dx0=dx0, payload=payload,
                       trailing_blank=rng.random() < 0.7, long_ratio=rng.random() < 0.3,
                       file_gaps=rng.random() < 0.3,
-                      time=rng.choice([0.0, 1.3924182125972017e-08, -2.5, 1e+22, 0.1]), numfmt=numfmt)
+                      time=rng.choice([0.0, 1.3924182125972017e-08, -2.5, 1e+22, 0.1]), numfmt=numfmt,
+                      final_newline=random_final_newline(origin, dx0))
+
+
+def random_final_newline(origin, dx0):
+    """One configuration in five has no final line end (derived from the drawn numbers: the random stream is left as it was)."""
+    return int(abs(hash((tuple(origin), tuple(dx0))))) % 5 != 0
 
 
 # ---------------------------------------------------------------- token payloads
@@ -326,6 +335,14 @@ def write_plotfile(path, AP, cfg, reg=None, values=None, mm_override=None):
             for b in range(1, nb + 1):
                 c.write(",".join(fmt_mm(v) for v in maxs[b]) + ",\n")
             c.write("\n")
+        if not getattr(cfg, "final_newline", True):
+            p = os.path.join(ldir, "Cell_H")
+            txt = open(p).read().rstrip("\n")
+            open(p, "w").write(txt)
+    if not getattr(cfg, "final_newline", True):
+        p = os.path.join(path, "Header")
+        txt = open(p).read().rstrip("\n")
+        open(p, "w").write(txt)
     return reg
 
 
